@@ -1,6 +1,9 @@
 import CacheProofs.Props.C18
+import CacheProofs.Props.C18F
 open Cache
 #print axioms C18_totals_are_sums
 #print axioms C18_step_counts
 #print axioms C18_backend_totals
 #print axioms C18_cleanup_metrics
+#print axioms C18_failover_totals
+#print axioms C18_refreshed_counts_restores
